@@ -8,7 +8,7 @@ Grammar of the script tokens: ocaml/ops_hist.ml."""
 from genlib import *
 
 STATS = {"pair_same": 0, "pair_diff": 0, "panic": 0}
-THEOREMS = ["C04_step_spec_partial", "C04_step_canon_partial", "C04_reachable_canon_partial", "C04_indistinguishable_partial", "C04_indistinguishable_nomul"]
+THEOREMS = ["C04_step_spec", "C04_step_canon", "C04_reachable_canon", "C04_history_spec", "C04_history_trace_spec", "C04_export_spec", "C04_indistinguishable"]
 RULE = "a history is non-trivial if it has at least 3 operations or reaches a value of >= 2 digits"
 
 LENS = [0, 1, 1, 2, 2, 3, 4, 5, 6, 8, 11, 16, 17, 33]
